@@ -312,3 +312,107 @@ func installBinary(m *Machine) {
 		I[fmt.Sprintf("(encoding/binary.littleEndian).Uint%d", 8*n)] = get(n)
 	}
 }
+
+// grpcStatus models google.golang.org/grpc/status values: status.Error/Errorf build an error carrying a code and a
+// message, status.FromError/Code/Convert read it back. The real package builds protobuf messages (reflection, package
+// state initialised by init functions that are never run here); nothing in kevo depends on more than code and message.
+type grpcStatus struct {
+	code uint64
+	msg  string
+}
+
+func installGRPCStatus(m *Machine) {
+	I := m.Intr
+	// package-level math/rand draws: zero or not (kevo only tests "== 0")
+	for _, n := range []string{"math/rand.Intn", "math/rand.Int63n", "math/rand.Int31n"} {
+		I[n] = func(r *Run, fr *Frame, a []Value) Value {
+			w := a[0].(Num)
+			c := r.decide(2, func(i int) *Term { return nil })
+			return Num{W: w.W, Signed: true, C: uint64(c)}
+		}
+	}
+	const sp = "google.golang.org/grpc/status."
+	mkErr := func(r *Run, code uint64, msg string) Value {
+		if code == 0 {
+			return nilErr()
+		}
+		return r.hostIface("grpcstatus", &grpcStatus{code: code, msg: msg})
+	}
+	I[sp+"Error"] = func(r *Run, fr *Frame, a []Value) Value {
+		return mkErr(r, r.concretize(a[0].(Num), 0, 16), cstr(a[1]))
+	}
+	I[sp+"Errorf"] = func(r *Run, fr *Frame, a []Value) Value {
+		s, _ := r.sprintf(a[1:])
+		return mkErr(r, r.concretize(a[0].(Num), 0, 16), s)
+	}
+	statusOf := func(r *Run, e Iface) (*grpcStatus, bool) {
+		for e.T != nil {
+			if h, ok := e.V.(*HostObj); ok && h.Kind == "grpcstatus" {
+				return h.Data.(*grpcStatus), true
+			}
+			ms := r.M.Prog.MethodSets.MethodSet(e.T)
+			sel := ms.Lookup(nil, "Unwrap")
+			if sel == nil {
+				break
+			}
+			out := r.callFn(nil, r.M.Prog.MethodValue(sel), []Value{e.V}, nil)
+			ne, ok := out.(Iface)
+			if !ok {
+				break
+			}
+			e = ne
+		}
+		return nil, false
+	}
+	stPtr := func(st *grpcStatus) Value {
+		cell := new(Value)
+		*cell = &HostObj{Kind: "grpcstatusval", Data: st}
+		return Ptr(cell)
+	}
+	I[sp+"FromError"] = func(r *Run, fr *Frame, a []Value) Value {
+		e := a[0].(Iface)
+		if e.T == nil {
+			return Tuple{Ptr(nil), Bool{C: true}}
+		}
+		if st, ok := statusOf(r, e); ok {
+			return Tuple{stPtr(st), Bool{C: true}}
+		}
+		return Tuple{stPtr(&grpcStatus{code: 2, msg: "unknown"}), Bool{C: false}}
+	}
+	I[sp+"Convert"] = func(r *Run, fr *Frame, a []Value) Value {
+		e := a[0].(Iface)
+		if st, ok := statusOf(r, e); ok {
+			return stPtr(st)
+		}
+		if e.T == nil {
+			return Ptr(nil)
+		}
+		return stPtr(&grpcStatus{code: 2, msg: "unknown"})
+	}
+	I[sp+"Code"] = func(r *Run, fr *Frame, a []Value) Value {
+		e := a[0].(Iface)
+		if e.T == nil {
+			return Num{W: 32, C: 0}
+		}
+		if st, ok := statusOf(r, e); ok {
+			return Num{W: 32, C: st.code}
+		}
+		return Num{W: 32, C: 2}
+	}
+	get := func(v Value) *grpcStatus {
+		p, _ := v.(Ptr)
+		if p == nil {
+			return &grpcStatus{}
+		}
+		return (*p).(*HostObj).Data.(*grpcStatus)
+	}
+	// status.Status is an alias of internal/status.Status: register the methods under both spellings
+	for _, tp := range []string{"(*google.golang.org/grpc/status.Status).", "(*google.golang.org/grpc/internal/status.Status)."} {
+		I[tp+"Code"] = func(r *Run, fr *Frame, a []Value) Value { return Num{W: 32, C: get(a[0]).code} }
+		I[tp+"Message"] = func(r *Run, fr *Frame, a []Value) Value { return Str(get(a[0]).msg) }
+		I[tp+"Err"] = func(r *Run, fr *Frame, a []Value) Value {
+			st := get(a[0])
+			return mkErr(r, st.code, st.msg)
+		}
+	}
+}
